@@ -8,9 +8,12 @@ package main
 // URLs whose Value it does not hold yet and then holds them - or, on command, with an error or
 // an empty answer.
 //
-// Input (one line):  urls=<hex>,... seen=<url index>,... steps=<step>;<step>;...
+// Input (one line):  [cfg=<flags>] [bs=<n>] urls=<hex>,... seen=<url index>,... steps=<step>;<step>;...
 //   step: <C|P><tree>!<O|E|N>    O faithful answer, E status 500, N 204 (everything seen)
 //   seen: URLs the HQ holds from the start (in every text form: as given, parsed, canonical)
+//   bs:   the operator's --hq-batch-size (absent: the flag's default, 500).  A pass may put its
+//         request to the HQ in batches of that size: the fake HQ records EVERY request of a step
+//         with the reply it gave, and the monitors judge every asset by the reply to its own batch.
 
 import (
 	"encoding/json"
@@ -29,6 +32,7 @@ import (
 	"github.com/internetarchive/Zeno/internal/pkg/stats"
 	"github.com/internetarchive/Zeno/pkg/models"
 	"github.com/internetarchive/gocrawlhq"
+	"github.com/spf13/viper"
 )
 
 func init() {
@@ -37,7 +41,7 @@ func init() {
 		Header:   seenHeader,
 		CaseType: "hcase",
 		Footer:   "\nDefinition DIFF := Eval vm_compute in hdiffs cases.\nPrint DIFF.\nDefinition MON := Eval vm_compute in hmons cases.\nPrint MON.\n",
-		Rule:     "one case = 1..5 seencheck round trips of the real hq.SeencheckItem (alone or inside the real preprocess with UseHQ, real gocrawlhq HTTP client) against a fake crawl HQ holding a scripted set of texts (initially 0..3 URLs of the pool), answering faithfully, with status 500 or with 204; trees as for the driver 'seen'; distinct by input text; non-trivial when in one request the HQ reported some URL as seen and another as new",
+		Rule:     "one case = 1..5 passes of the real hq.SeencheckItem (alone or inside the real preprocess with UseHQ, real gocrawlhq HTTP client) against a fake crawl HQ holding a scripted set of texts (initially 0..3 URLs of the pool), answering faithfully, with status 500 or with 204; trees as for the driver 'seen' plus wide assets pages (n distinct never-seen or partly held assets, n = k*b-1, k*b, k*b+1 for the case's --hq-batch-size b = 1..5, set through viper like the other operator flags); every request of a pass is recorded with its reply; distinct by input text; non-trivial when in one request the HQ reported some URL as seen and another as new",
 		Setup:    setupHQSeen,
 		Gen:      genHQSeen,
 		Exec:     execHQSeen,
@@ -51,12 +55,15 @@ type fakeSeenHQ struct {
 	srv    *httptest.Server
 	held   map[string]bool
 	script byte
-	// of the last request
-	asked  bool
+	// of the current step: every request received, in order, with the reply given
+	exch []hqExchange
+	auth bool
+}
+
+type hqExchange struct {
 	sent   []gocrawlhq.URL
 	answer []gocrawlhq.URL
 	status int
-	auth   bool
 }
 
 var fakeSeen = &fakeSeenHQ{}
@@ -73,15 +80,15 @@ func (f *fakeSeenHQ) handle(w http.ResponseWriter, r *http.Request) {
 		w.WriteHeader(400)
 		return
 	}
-	f.asked = true
-	f.sent = urls
-	f.auth = r.Header.Get("X-Auth-Key") == "k" && r.Header.Get("X-Auth-Secret") == "s"
+	f.exch = append(f.exch, hqExchange{sent: urls})
+	ex := &f.exch[len(f.exch)-1]
+	f.auth = (len(f.exch) == 1 || f.auth) && r.Header.Get("X-Auth-Key") == "k" && r.Header.Get("X-Auth-Secret") == "s"
 	switch f.script {
 	case 'E':
-		f.status = 500
+		ex.status = 500
 		w.WriteHeader(500)
 	case 'N':
-		f.status = 204
+		ex.status = 204
 		for _, u := range urls {
 			f.held[u.Value] = true
 		}
@@ -94,13 +101,13 @@ func (f *fakeSeenHQ) handle(w http.ResponseWriter, r *http.Request) {
 				out = append(out, u)
 			}
 		}
-		f.answer = out
+		ex.answer = out
 		if len(out) == 0 {
-			f.status = 204
+			ex.status = 204
 			w.WriteHeader(204)
 			return
 		}
-		f.status = 200
+		ex.status = 200
 		w.Header().Set("Content-Type", "application/json")
 		w.WriteHeader(200)
 		json.NewEncoder(w).Encode(out)
@@ -185,6 +192,16 @@ func execHQSeen(input string) Result {
 	if total > 300 {
 		return bad("rejected:size")
 	}
+	// --hq-batch-size, brought in like the other operator flags (viper key -> Config.HQBatchSize)
+	bs := 500
+	if v, given := kv["bs"]; given {
+		n, err := strconv.Atoi(v)
+		if err != nil || n < 1 || n > 100000 {
+			return bad("rejected:syntax")
+		}
+		bs = n
+	}
+	viper.Set("hq-batch-size", bs)
 	off, okc := applyOperatorFlags(kv["cfg"], true, "hqseenjob")
 	if !okc {
 		return bad("rejected:syntax")
@@ -218,7 +235,7 @@ func execHQSeen(input string) Result {
 	mixed := false
 	for si, st := range steps {
 		fakeSeen.mu.Lock()
-		fakeSeen.script, fakeSeen.asked, fakeSeen.sent, fakeSeen.answer, fakeSeen.status = st.script, false, nil, nil, 0
+		fakeSeen.script, fakeSeen.exch, fakeSeen.auth = st.script, nil, false
 		fakeSeen.mu.Unlock()
 		t := buildTree(st.spec, urls, fmt.Sprintf("h%d", si))
 		t.normalise(st.kind == 'P')
@@ -242,27 +259,53 @@ func execHQSeen(input string) Result {
 			}
 		}()
 		fakeSeen.mu.Lock()
-		asked, sent, answer, status, auth := fakeSeen.asked, fakeSeen.sent, fakeSeen.answer, fakeSeen.status, fakeSeen.auth
+		exch, auth := fakeSeen.exch, fakeSeen.auth
 		fakeSeen.mu.Unlock()
+		asked := len(exch) > 0
 		if !asked && outcome == "HDone" {
 			outcome = "HNoop"
-		}
-		if asked && status == 500 {
-			outcome = "HErr"
 		}
 		if asked && !auth {
 			tags["no-auth-headers"] = true
 		}
-		var sentT, ansT, raws []string
-		for _, u := range sent {
-			sentT = append(sentT, fmt.Sprintf("(%d, %s)", in.id(u.Value), coqKind(u.Type)))
+		var exT, raws []string
+		nSent, nNew := 0, 0
+		for _, ex := range exch {
+			var sentT, ansT []string
+			for _, u := range ex.sent {
+				sentT = append(sentT, fmt.Sprintf("(%d, %s)", in.id(u.Value), coqKind(u.Type)))
+			}
+			for _, u := range ex.answer {
+				ansT = append(ansT, strconv.Itoa(in.id(u.Value)))
+			}
+			reply := "HROk " + coqList(ansT)
+			if ex.status == 500 {
+				reply = "HRErr"
+				outcome = "HErr"
+			}
+			if ex.status == 200 {
+				nNew += len(ex.answer)
+			}
+			nSent += len(ex.sent)
+			exT = append(exT, fmt.Sprintf("(%s, %s)", coqList(sentT), reply))
 		}
-		for _, u := range answer {
-			ansT = append(ansT, strconv.Itoa(in.id(u.Value)))
-		}
-		reply := "HROk " + coqList(ansT)
-		if status == 500 || !asked {
-			reply = "HRErr"
+		if asked {
+			// the size of the request against the batch size: the boundaries of a batched request
+			switch {
+			case nSent < bs:
+				tags["request:below-batch-size"] = true
+			case nSent == bs:
+				tags["request:one-full-batch"] = true
+			case nSent%bs == 0:
+				tags["request:full-batches"] = true
+			case nSent%bs == 1:
+				tags["request:full-batches-plus-one"] = true
+			default:
+				tags["request:several-batches-ragged"] = true
+			}
+			if len(exch) > 1 {
+				tags["requests-in-one-pass:>1"] = true
+			}
 		}
 		rawDiffers := false
 		for i, n := range t.nodes {
@@ -278,11 +321,11 @@ func execHQSeen(input string) Result {
 		if rawDiffers {
 			tags["hq-raw-neq-canon"] = true
 		}
-		if asked && status == 200 && len(answer) < len(sent) {
+		if asked && nNew > 0 && nNew < nSent {
 			mixed = true
 		}
-		terms = append(terms, fmt.Sprintf("HS %s (%s) %s %s (%s) %s %s (%s) %s %s",
-			coqBool(st.kind == 'P'), t.coqBefore(in), coqList(sentT), coqBool(asked), reply, coqBool(st.script == 'O'),
+		terms = append(terms, fmt.Sprintf("HS %s (%s) %s %s %s %s (%s) %s %s",
+			coqBool(st.kind == 'P'), t.coqBefore(in), coqList(exT), coqBool(asked), coqBool(st.script == 'O'),
 			outcome, coqAfter(t.root, in), coqList(requestIDs(t.root)), coqList(raws)))
 		tags["script:"+string(st.script)] = true
 		tags["out:"+outcome] = true
@@ -294,6 +337,15 @@ func execHQSeen(input string) Result {
 		}
 	}
 	tags[fmt.Sprintf("steps:%d", bucketN(len(steps)))] = true
+	if _, given := kv["bs"]; given {
+		if bs <= 5 {
+			tags[fmt.Sprintf("hq-batch-size:%d", bs)] = true
+		} else {
+			tags["hq-batch-size:>5"] = true
+		}
+	} else {
+		tags["hq-batch-size:default"] = true
+	}
 	if off {
 		tags["operator:seencheck-off"] = true
 	} else if cfgOf(kv) != "-" {
@@ -356,7 +408,73 @@ func genHQSeen(r *Rng, i int, tier string) string {
 	for k := r.Intn(4); k > 0; k-- {
 		seen = append(seen, strconv.Itoa(r.Intn(nAbs)))
 	}
-	return fmt.Sprintf("cfg=%s urls=%s seen=%s steps=%s", genOperatorFlags(r), hexURLs(pool), strings.Join(seen, ","), formatHQSteps(steps))
+	cfg := genOperatorFlags(r)
+	// the operator's --hq-batch-size, small against the number of assets of a pass: a request put to
+	// the HQ in batches must come out as the single request does
+	bsField := ""
+	if r.Chance(45) {
+		bs := []int{1, 1, 2, 2, 3, 3, 4, 5}[r.Intn(8)]
+		bsField = fmt.Sprintf("bs=%d ", bs)
+		if r.Chance(50) {
+			// a wide assets page: m distinct assets, m around a multiple of the batch size
+			// (one short, exact, one over), some of them possibly held by the HQ already
+			m := (1+r.Intn(3))*bs + r.Intn(3) - 1
+			if m < 1 {
+				m = 1
+			}
+			first := len(pool)
+			tag := r.Intn(1000)
+			for j := 0; j < m; j++ {
+				u := fmt.Sprintf("http://h.example/w%d/a%d.png?id=%d", tag, j, j)
+				if multi {
+					u += "&size=big"
+				}
+				pool = append(pool, u)
+			}
+			page := &specNode{url: r.Intn(nAbs), st: 7}
+			for j := 0; j < m; j++ {
+				k := &specNode{url: first + j, st: 0}
+				if r.Chance(10) {
+					k.url = r.Intn(len(pool)) // a duplicate, or a URL of the ordinary pool
+				}
+				page.kids = append(page.kids, k)
+			}
+			for k := r.Intn(3); k > 0; k-- {
+				seen = append(seen, strconv.Itoa(first+r.Intn(m)))
+			}
+			tree := page
+			if r.Chance(30) { // the page is itself an asset-bearing child of the seed (depth 2)
+				tree = &specNode{url: r.Intn(nAbs), st: 7, kids: []*specNode{page}}
+				if r.Chance(50) {
+					tree.kids = append(tree.kids, &specNode{url: r.Intn(first), st: 4})
+				}
+			}
+			kind, sc := byte('P'), byte('O')
+			if r.Chance(40) {
+				kind = 'C'
+			}
+			if r.Chance(8) {
+				sc = 'E'
+			} else if r.Chance(5) {
+				sc = 'N'
+			}
+			wide := []hqStep{{kind: kind, spec: tree, script: sc}}
+			if r.Chance(30) { // and once more: with a faithful HQ everything is held now
+				wide = append(wide, hqStep{kind: kind, spec: tree.clone(), script: 'O'})
+			}
+			at := r.Intn(len(steps) + 1)
+			steps = append(steps[:at:at], append(wide, steps[at:]...)...)
+		}
+	}
+	return fmt.Sprintf("cfg=%s %surls=%s seen=%s steps=%s", cfg, bsField, hexURLs(pool), strings.Join(seen, ","), formatHQSteps(steps))
+}
+
+// bsOf: the batch-size field of an input, to be carried into shrunk inputs
+func bsOf(kv map[string]string) string {
+	if v, ok := kv["bs"]; ok {
+		return "bs=" + v + " "
+	}
+	return ""
 }
 
 func shrinkHQSeen(input string) []string {
@@ -368,7 +486,7 @@ func shrinkHQSeen(input string) []string {
 	var out []string
 	emit := func(seen string, ss []hqStep) {
 		if len(ss) > 0 {
-			out = append(out, fmt.Sprintf("cfg=%s urls=%s seen=%s steps=%s", cfgOf(kv), kv["urls"], seen, formatHQSteps(ss)))
+			out = append(out, fmt.Sprintf("cfg=%s %surls=%s seen=%s steps=%s", cfgOf(kv), bsOf(kv), kv["urls"], seen, formatHQSteps(ss)))
 		}
 	}
 	for i := range steps {
